@@ -629,8 +629,9 @@ type Finding struct {
 	Clause      string   `json:"clause,omitempty"`
 	Entry       []string `json:"entry,omitempty"`
 	Mode        string   `json:"mode,omitempty"`
+	Modes       []string `json:"modes,omitempty"` // any of (alternative to mode)
 	Site        string   `json:"site,omitempty"`
-	Hazards     []string `json:"hazards,omitempty"`    // must all be present
+	Hazards     []string `json:"hazards,omitempty"`     // must all be present
 	NotHazards  []string `json:"not_hazards,omitempty"` // must all be absent
 	Delta       string   `json:"delta,omitempty"`
 	Exemplar    string   `json:"exemplar"`
@@ -676,6 +677,17 @@ func (ff *FindingsFile) Match(sig Signature) *Finding {
 		}
 		if f.Mode != "" && !matchGlob(f.Mode, sig.Mode) {
 			continue
+		}
+		if len(f.Modes) > 0 {
+			ok := false
+			for _, m := range f.Modes {
+				if matchGlob(m, sig.Mode) {
+					ok = true
+				}
+			}
+			if !ok {
+				continue
+			}
 		}
 		if f.Site != "" && !matchGlob(f.Site, sig.Site) {
 			continue
@@ -805,20 +817,20 @@ func Conclude(cfg *Config, chk Check, agg *Aggregate, t0 time.Time) int {
 		agg.Fail("observed fewer than 2 distinct non-trivial cases")
 	}
 	cover := map[string]interface{}{
-		"evaluations":           agg.Evals,
-		"distinct_nontrivial":   distinct,
-		"rule":                  chk.Rule(),
-		"samples":               sampleList(agg.Samples),
-		"cases":                 agg.Cases,
-		"tags":                  agg.Cover,
-		"inconclusive":          nInc,
-		"inconclusive_samples":  firstN(agg.Inconclusive, 5),
-		"worker_crashes":        agg.Crashes,
-		"known_findings_fired":  knownOut,
-		"unlisted_signatures":   len(unlisted),
-		"broken":                agg.Broken,
-		"workers":               cfg.Workers,
-		"race_build":            cfg.Race,
+		"evaluations":          agg.Evals,
+		"distinct_nontrivial":  distinct,
+		"rule":                 chk.Rule(),
+		"samples":              sampleList(agg.Samples),
+		"cases":                agg.Cases,
+		"tags":                 agg.Cover,
+		"inconclusive":         nInc,
+		"inconclusive_samples": firstN(agg.Inconclusive, 5),
+		"worker_crashes":       agg.Crashes,
+		"known_findings_fired": knownOut,
+		"unlisted_signatures":  len(unlisted),
+		"broken":               agg.Broken,
+		"workers":              cfg.Workers,
+		"race_build":           cfg.Race,
 	}
 	for k, v := range agg.Extra {
 		cover[k] = v
